@@ -227,7 +227,7 @@ package mapping
 // never panics on an ill-typed document value: every type assertion and index below is proved to succeed
 //@   safety typeassert
 //@   replay mapping_illtyped
-//@   opaque processFieldStruct, fillMap, fillMapFromString, fillSliceFromString, fillDurationValue, processFieldPrimitive
+//@   opaque processFieldStruct, fillMap, fillMapFromString, fillSliceFromString, fillDurationValue, processFieldPrimitive, validateValueInOptions, options
 //@   requires u != nil
 //@   observe FieldKind = tkind(fieldType.tag, fieldType.val)
 //@   observe TypeKind = ret(Kind, 0, 1)
@@ -238,6 +238,11 @@ package mapping
 //@   let sv = unbox(arg(processFieldStruct, 3), ptr(simpleValuer))
 //@   ensures [object-into-struct-from-its-own-entries] valueKind == 21 && typeKind == 25 && typeis(vp.value, map[string]any) ==> calls(u.processFieldStruct) == 1 && typeis(arg(processFieldStruct, 3), ptr(simpleValuer)) && sv.parent == vp.parent && typeis(sv.current, mapValuer) && unbox(sv.current, mapValuer) == unbox(vp.value, map[string]any) && result == ret(processFieldStruct)
 //@   ensures [foreign-map-is-a-mismatch] valueKind == 21 && typeKind == 25 && !typeis(vp.value, map[string]any) ==> result == errTypeMismatch && calls(processFieldStruct) == 0
+// a duration given as text is checked against options= like every other scalar (a value outside the declared
+// options makes it fail) before it is parsed and stored
+//@   replay-for duration-checked-against-its-options mapping_duration_options
+//@   ensures [duration-checked-against-its-options] calls(fillDurationValue) >= 1 ==> calls(validateValueInOptions) == 1 && ret(validateValueInOptions) == nil && before(validateValueInOptions, fillDurationValue) && typeis(vp.value, string) && unbox(arg(validateValueInOptions, 0), string) == unbox(vp.value, string) && arg(validateValueInOptions, 1) == ret(options)
+//@   ensures [duration-outside-its-options-refused] calls(validateValueInOptions) == 1 && ret(validateValueInOptions) != nil ==> result == ret(validateValueInOptions) && calls(fillDurationValue) == 0
 //@   ensures [primitive-path] !(valueKind == 21 && (typeKind == 25 || typeKind == 21)) && valueKind != 24 ==> calls(u.processFieldPrimitive) == 1 && arg(processFieldPrimitive, 3) == vp.value && result == ret(processFieldPrimitive)
 
 // ---------------- range= / options= / default= tags: parsing (C05) ----------------
@@ -641,11 +646,15 @@ package mapping
 //@   let tagged = ret(getTag, 1)
 //@   ensures [bad-tag-refused] tagged && ret(parseKeyAndOptions, 2) != nil ==> result == ret(parseKeyAndOptions, 2) && calls(validate) == 0
 //@   ensures [invalid-value-refused] tagged && ret(parseKeyAndOptions, 2) == nil && ret(validate) != nil ==> result == ret(validate)
-//@   ensures [valid-field-always-sent] !tagged || (ret(parseKeyAndOptions, 2) == nil && ret(validate) == nil) ==> result == nil && calls(Interface) == 1 && has(ret, local(tag)) && has(ret[local(tag)], local(key))
+//@   ensures [valid-field-always-sent] !tagged || (ret(parseKeyAndOptions, 2) == nil && ret(validate) == nil) ==> result == nil && calls(Interface) >= 1 && has(ret, local(tag)) && has(ret[local(tag)], local(key))
 //@   ensures [untagged-under-its-name] !tagged ==> local(key) == field.Name && calls(parseKeyAndOptions) == 0
 //@   ensures [tagged-under-its-key] tagged && result == nil ==> local(key) == ret(parseKeyAndOptions, 0) && local(tag) == ret(getTag, 0)
 //@   ensures [sent-as-is] result == nil && (!tagged || ret(parseKeyAndOptions, 1) == nil || !ret(parseKeyAndOptions, 1).FromString) ==> ret[local(tag)][local(key)] == ret(Interface) && calls(Sprint) == 0
-//@   ensures [string-fields-sent-as-text] result == nil && tagged && ret(parseKeyAndOptions, 1) != nil && ret(parseKeyAndOptions, 1).FromString ==> calls(fmt.Sprint) == 1 && typeis(ret[local(tag)][local(key)], string) && unbox(ret[local(tag)][local(key)], string) == ret(fmt.Sprint)
+//@   ensures [string-fields-sent-as-text] calls(fmt.Sprint) == 1 ==> typeis(ret[local(tag)][local(key)], string) && unbox(ret[local(tag)][local(key)], string) == ret(fmt.Sprint)
+// the text is that of the VALUE: for a pointer field what it points to (never the pointer's address), and a nil
+// pointer stays nil
+//@   replay-for text-of-what-a-pointer-points-to mapping_pointer_string_option
+//@   ensures [text-of-what-a-pointer-points-to] calls(fmt.Sprint) == 1 ==> calls(reflect.Indirect, value) == 1 && calls(Interface) == 2 && arg(Interface, 0, 2) == ret(reflect.Indirect) && unbox(arg(fmt.Sprint, 0), []any)[0] == ret(Interface, 0, 2)
 
 // Marshal: every field of the struct is processed, in order, into the one result; the first error stops.
 //@ func Marshal
